@@ -2,7 +2,7 @@
 from vf import gen, ref
 from vf.core import exc_desc
 from vf.lazy import ck, libx, common
-from vf.monitors import algos
+from vf.monitors import algos, large
 
 PROP = "C10"
 TECHNIQUE = ('runtime monitoring of PickAPerm (shared object, second scheme on the same objects) against the reference candidates / minima; refusal expected iff incomplete and not a multiple of the unifying scheme on both vectors')
@@ -16,8 +16,11 @@ CRASH_IS_VIOLATION = False
 
 def plan(tier, seed):
     if tier == "quick":
-        return [{"n_cases": 500, "mode": "A", "hashseed": i % 3} for i in range(8)]
-    return [{"n_cases": 6000, "mode": "A", "hashseed": i % 4} for i in range(12)]
+        return [{"n_cases": 500, "mode": "A", "hashseed": i % 3} for i in range(8)] + \
+               [{"n_cases": 4, "mode": "A", "params": {"xlarge": prof}, "hashseed": i % 2} for i, prof in enumerate(["trap", "wide", "cells"])]
+    return [{"n_cases": 6000, "mode": "A", "hashseed": i % 4} for i in range(12)] + \
+           [{"n_cases": 12, "mode": "A", "params": {"xlarge": prof}, "hashseed": i % 4}
+            for i, prof in enumerate(["trap", "trap", "sweep", "cells"])]
 
 
 def unifying_lookalike(rng):
@@ -34,6 +37,28 @@ def unifying_lookalike(rng):
 
 
 def gen_case(rng, ctx):
+    prof = ctx.params.get("xlarge")
+    if prof == "trap":
+        # more than 1000 elements: input rankings that differ in the middle of a long common chain and score differently
+        ds, info = gen.trap_dataset(rng, tail=rng.choice([1000, 1000, 1003, 1100]), head=rng.choice([3, 3, 4, 6]))
+        if rng.random() < 0.4:
+            ds = ds + [[list(b) for b in r] for r in ds[:1]]
+        sch = gen.scale(ref.PRESETS[rng.choice(["unifying", "unifying", "pseudodistance", "unifying_half"])], rng.choice([1.0, 1.0, 2.0]))
+        n = len(ref.universe(ds))
+        return {"ds": ds, "scheme": sch, "scheme2": None, "dcls": "xlarge", "scls": "S2", "one": rng.random() < 0.4, "n": n,
+                "m": len(ds), "profile": "trap", "libseed": 0}
+    if prof:
+        case = large.gen_large(rng, profiles=[prof], index=ctx.index)
+        if len(case["ds"]) > 8:
+            case["ds"] = case["ds"][:6]       # PickAPerm scores every input ranking against all the others
+            missing = [e for e in case["base"] if e not in set(gen.universe_of(case["ds"]))]
+            if missing:
+                case["ds"].append([[e] for e in missing])
+            case["m"] = len(case["ds"])
+        if not ref.is_complete(case["ds"]):
+            case["scheme"] = gen.scale(ref.PRESETS["unifying"], rng.choice([1.0, 2.0, 0.5, 3.0]))
+        case.update({"scheme2": None, "dcls": "xlarge", "one": rng.random() < 0.4})
+        return case
     cls, ds = gen.dataset(rng, classes="D1 D2 D3 D3 D4 D5 D6 D6 D7 D8 D17 D17 D16 D18", nmax=8, mmax=7)
     ds = libx.normalise_raw(ds)
     which = rng.random()
@@ -59,9 +84,59 @@ def gen_case(rng, ctx):
     return {"ds": ds, "scheme": sch, "scheme2": sch2, "dcls": cls, "scls": scls, "one": rng.random() < 0.5}
 
 
+def check_xlarge(case, ctx):
+    """63 .. 1100+ elements: the returned rankings against the input rankings scored by the vectorised reference"""
+    lc = large.Context(case)
+    one = case["one"]
+    sub = large.slim(case, one=one)
+    common.set_case(ctx, sub)
+    ctx.unit()
+    st, cons = large.run("PickAPerm", lc, one, 0)
+    if st != "ok":
+        ctx.violation(f"C10/raises-{type(cons).__name__}", f"PickAPerm did not answer on {case['n']} elements x {case['m']} "
+                      f"rankings: {exc_desc(cons)}", sub)
+        return
+    ctx.count("accepted")
+    ctx.count("xlarge_judged")
+    if case["n"] > 1000:
+        ctx.count("xlarge_judged_above_1000_elements")
+    cands = ref.unify(lc.ds) if not lc.complete else [r for r in lc.ds]
+    scores = [lc.score(c) for c in cands]
+    best = min(scores)
+    by_canon = {}
+    for c, sc in zip(cands, scores):
+        by_canon[ref.canon(c)] = sc
+    minimal = {c for c, sc in by_canon.items() if sc == best}
+    if len({sc for sc in by_canon.values()}) >= 2:
+        ctx.count("xlarge_with_different_scores")
+    rankings = [libx.raw_ranking(r) for r in cons.consensus_rankings]
+    if len(rankings) == 0 or (one and len(rankings) != 1):
+        ctx.violation("C10/more-than-one-returned" if rankings else "C10/nothing-returned", f"{len(rankings)} rankings returned "
+                      f"(at most one asked: {one})", sub)
+        return
+    for r in rankings:
+        c = ref.canon(r)
+        if c not in by_canon:
+            ctx.violation("C10/returned-ranking-is-not-an-input-ranking", f"a returned ranking over {case['n']} elements is not "
+                          "one of the (unified) input rankings", sub)
+            return
+        if by_canon[c] != best:
+            ctx.violation("C10/returned-ranking-is-not-minimal", f"{case['n']} elements: a returned ranking scores {by_canon[c]} "
+                          f"but the best input ranking scores {best} (scores of the distinct inputs: "
+                          f"{sorted(set(by_canon.values()))[:6]})", sub, observed=by_canon[c], expected=best)
+            return
+    if not one and not minimal <= {ref.canon(r) for r in rankings}:
+        ctx.violation("C10/minimal-input-ranking-missing", f"all minimal rankings requested: {len(rankings)} returned, "
+                      f"{len(minimal)} distinct minimal input rankings exist", sub)
+        return
+    ctx.nontrivial({"n": case["n"], "m": case["m"], "d": gen.digest(case["ds"]), "one": one})
+
+
 def check_case(case, ctx):
     """the same Dataset object (and, through algos.run_config, the same PickAPerm object) is aggregated under the case's
     scheme and then under a second, non-proportional scheme: state kept from the first call must not leak"""
+    if case.get("dcls") == "xlarge":
+        return check_xlarge(case, ctx)
     common.set_case(ctx, case)
     dataset = libx.mk_dataset(case["ds"])
     judge(case, ctx, dataset, case["scheme"], first=True)
@@ -152,7 +227,10 @@ def reach(counters, tier, info):
                             ("all-requested cases with >= 2 distinct minima", "several_minima", 100 * k),
                             ("second calls under another scheme on the same Dataset / PickAPerm objects",
                              "second_scheme_on_same_objects", 1500 * k),
-                            ("all-requested cases with >= 2 distinct minima of score 0", "several_minima_at_score_zero", 40 * k)]:
+                            ("all-requested cases with >= 2 distinct minima of score 0", "several_minima_at_score_zero", 40 * k),
+                            ("datasets of 63-1100+ elements judged (vectorised reference)", "xlarge_judged", 8 if tier == "quick" else 30),
+                            ("... of more than 1000 elements", "xlarge_judged_above_1000_elements", 3 if tier == "quick" else 12),
+                            ("... whose distinct input rankings score differently", "xlarge_with_different_scores", 5 if tier == "quick" else 20)]:
         v = counters.get(key, 0)
         out.append({"name": name, "observed": v, "required": need, "ok": v >= need})
     return out
